@@ -10,14 +10,14 @@ LEVEL = "exploration"
 RULE = ("(a) Law cases: three matrices, a point and a rectangle with Fraction/int components (dyadic and thirds); "
         "all helper results must equal an independent 3x3 row-vector reference and satisfy associativity, identity, "
         "composition, translate_matrix == mult((1,0,0,1,v),m), norm == pt - pt(0), rect == hull of 4 corners, exactly. "
-        "(b) Model-based histories: op lists add/remove/find/iter/len/in on utils.Plane (drawn bounds incl. negative "
+        "(b) Model-based histories: op lists add/remove/re-add of a removed object/find/iter/len/in on utils.Plane (drawn bounds incl. negative "
         "and fractional origins, grid 50/7/1, boxes on/across/outside grid lines and bounds) against a list model: "
         "find returns no duplicates, only live properly-overlapping objects, and every live properly-overlapping "
         "object when object and query both reach into the index bounds; iteration = live objects in insertion order. "
         "Non-trivial (b) = a find after a removal that would have matched the removed object, or an edge exactly on a "
         "grid line/bound; non-trivial (a) = all three matrices non-identity with non-zero off-diagonal terms. "
         "Distinct by case encoding.")
-ASSUMPTIONS = ["every add inserts a fresh object and remove targets a live one (as all callers in layout.py do)",
+ASSUMPTIONS = ["add inserts a fresh object or one that was removed before (never one that is live) and remove targets a live one",
                "completeness of find is claimed only when query and object both intersect the index bounds "
                "(the index is declared to cover its bbox only)"]
 
@@ -154,6 +154,20 @@ def run_hist(case):
                 e[1] = False
                 removed_boxes.append(e[2])
                 classes.append("remove")
+            elif k == "readd":
+                # an object that was removed is inserted again: live once more, and the most recently inserted
+                dead = [e for e in seq if not e[1]]
+                if not dead:
+                    continue
+                e = dead[op[1] % len(dead)]
+                plane.add(e[0])
+                seq.remove(e)
+                e[1] = True
+                seq.append(e)
+                if e[2] in removed_boxes:
+                    removed_boxes.remove(e[2])
+                classes.append("re-add")
+                nt = True
             elif k == "find":
                 q = tuple(op[1])
                 got = list(plane.find(q))
@@ -220,7 +234,7 @@ def hist_cases(draw, steps):
     box = st.tuples(xs, ys, xs, ys).map(lambda r: (min(r[0], r[2]), min(r[1], r[3]), max(r[0], r[2]), max(r[1], r[3])))
     op = st.one_of(
         st.tuples(st.just("add"), box), st.tuples(st.just("add"), box),
-        st.tuples(st.just("remove"), st.integers(0, 1000)),
+        st.tuples(st.just("remove"), st.integers(0, 1000)), st.tuples(st.just("readd"), st.integers(0, 1000)),
         st.tuples(st.just("find"), box), st.tuples(st.just("find"), box),
         st.tuples(st.just("iter")), st.tuples(st.just("len")), st.tuples(st.just("in"), st.integers(0, 1000)),
     )
